@@ -301,6 +301,12 @@ class Gen:
             return self.g_new(world)
         if r.random() < self.p_bad:
             return self.g_bad(world)
+        if world.iters and r.random() < 0.2:
+            # a consumer is in the middle of an iteration: let it advance between the other operations (and let
+            # the next operation prefer changing the iterated value in place)
+            op = self.g_itnext(world)
+            self.last_derivation = (op['r'], op['r'])
+            return op
         follow = getattr(self, 'last_derivation', None)
         self.last_derivation = None
         if follow is not None and r.random() < 0.25:
@@ -420,6 +426,8 @@ class Gen:
         # advance (or open) the iterator that stays open on a value; prefer one that is already open
         n = len(world.vals)
         open_slots = [i for i in range(n) if id(world.vals[i]) in world.iters and world.iters[id(world.vals[i])][0] is world.vals[i]]
+        if not open_slots:
+            world.iters.clear()      # their sources have left the pool
         if open_slots and self.rng.random() < 0.8:
             s = self.rng.choice(open_slots)
         else:
